@@ -1,13 +1,17 @@
-// c18: correspondence harness for test.Bridge and dpipe (C18).
-package main
+// c18: correspondence harness for test.Bridge and dpipe (C18), run inside testing/synctest
+// bubbles: synctest.Wait tells exactly when the Bridge reader is parked and when it has
+// returned, so there is no polling and no dependence on scheduling or load.
+package c18
 
 import (
+	"context"
 	"errors"
 	"io"
 	"math/rand/v2"
 	"net"
-	"runtime"
 	"strconv"
+	"testing"
+	"testing/synctest"
 	"time"
 
 	"github.com/pion/transport/v3/dpipe"
@@ -34,6 +38,8 @@ func toBytes(ss []string) []byte {
 	}
 	return b
 }
+
+var errHung = errors.New("read did not return")
 
 type readRes struct {
 	n   int
@@ -68,30 +74,24 @@ func runBridge(h *common.History) {
 				n, err := conns[side].Read(buf)
 				ch <- readRes{n, err, buf}
 			}()
+			synctest.Wait() // the reader is parked in Read (or has already returned: closed endpoint)
+			br.Tick()
+			synctest.Wait() // if something was handed over, the reader has returned
 			var res *readRes
-			for try := 0; try < 400 && res == nil; try++ {
-				br.Tick()
-				for spin := 0; spin < 50 && res == nil; spin++ {
-					select {
-					case r := <-ch:
-						res = &r
-					default:
-						runtime.Gosched()
-					}
-				}
-				if try > 20 {
-					time.Sleep(20 * time.Microsecond)
-				}
-				if try >= 6 && br.Len(1-side) == 0 {
-					break // nothing queued towards this reader: it stays parked
-				}
-			}
-			if res == nil {
-				// release the parked reader through its deadline and restore "no deadline"
-				_ = conns[side].SetReadDeadline(time.Now().Add(-time.Second))
-				r := <-ch
-				_ = conns[side].SetReadDeadline(time.Time{})
+			select {
+			case r := <-ch:
 				res = &r
+			default:
+				// nothing delivered: release the parked reader through its deadline, restore "no deadline"
+				_ = conns[side].SetReadDeadline(time.Now().Add(-time.Second))
+				synctest.Wait()
+				select {
+				case r := <-ch:
+					res = &r
+				default:
+					res = &readRes{0, errHung, nil} // the read ignores its deadline
+				}
+				_ = conns[side].SetReadDeadline(time.Time{})
 			}
 			var ne net.Error
 			switch {
@@ -99,6 +99,8 @@ func runBridge(h *common.History) {
 				obs = []string{"0"}
 			case errors.Is(res.err, io.EOF):
 				obs = []string{"2"}
+			case errors.Is(res.err, errHung):
+				obs = []string{"97"}
 			case res.err != nil:
 				obs = []string{"98"}
 			default:
@@ -177,8 +179,13 @@ func runDpipe(h *common.History) {
 			for i := range buf {
 				buf[i] = 0xA5
 			}
+			_ = conns[side].SetReadDeadline(time.Now().Add(3 * time.Second)) // only a safety net: the read must not block
 			n, err := conns[side].Read(buf[:k])
+			_ = conns[side].SetReadDeadline(time.Time{})
 			switch {
+			case errors.Is(err, context.DeadlineExceeded):
+				obs = []string{"97"} // blocked although a message should be waiting
+				inflight[side] = 0
 			case errors.Is(err, io.EOF):
 				obs = []string{"2"}
 			case err != nil:
@@ -309,30 +316,31 @@ func run(h *common.History) {
 	}
 }
 
-func main() {
-	a := common.ParseArgs()
+func init() { common.RegisterFlags() }
+
+func TestHarness(t *testing.T) {
+	a := common.GetArgs()
 	w := common.NewWriter(a.Out)
+	var hs []*common.History
 	if a.Replay != "" {
-		hs, err := common.ReadHistories(a.Replay)
+		var err error
+		hs, err = common.ReadHistories(a.Replay)
 		if err != nil {
-			panic(err)
-		}
-		for _, h := range hs {
-			run(h)
-			w.Put(h)
+			t.Fatal(err)
 		}
 	} else {
 		r := common.Rng(a.Seed, 0x18)
 		for i := 0; i < a.N; i++ {
-			var h *common.History
 			if i%4 == 3 {
-				h = genDpipe(r)
+				hs = append(hs, genDpipe(r))
 			} else {
-				h = genBridge(r)
+				hs = append(hs, genBridge(r))
 			}
-			run(h)
-			w.Put(h)
 		}
+	}
+	for _, h := range hs {
+		synctest.Test(t, func(*testing.T) { run(h) })
+		w.Put(h)
 	}
 	w.Close(a.Out)
 }
